@@ -4,7 +4,7 @@ use crate::common::{
     Encoding, SectionId,
 };
 use crate::endianity::Endianity;
-use crate::read::{EndianSlice, Reader, ReaderOffset, Result, Section};
+use crate::read::{EndianSlice, Error, Reader, ReaderOffset, Result, Section};
 
 /// The `DebugStr` struct represents the DWARF strings
 /// found in the `.debug_str` section.
@@ -117,9 +117,12 @@ impl<R: Reader> DebugStrOffsets<R> {
     ) -> Result<DebugStrOffset<R::Offset>> {
         let input = &mut self.section.clone();
         input.skip(base.0)?;
-        input.skip(R::Offset::from_u64(
-            index.0.into_u64() * u64::from(format.word_size()),
-        )?)?;
+        let offset = index
+            .0
+            .into_u64()
+            .checked_mul(u64::from(format.word_size()))
+            .ok_or(Error::UnsupportedOffset)?;
+        input.skip(R::Offset::from_u64(offset)?)?;
         input.read_offset(format).map(DebugStrOffset)
     }
 }
